@@ -22,7 +22,7 @@ From Coq Require Import List NArith Bool.
 From XmlRs Require Import Base.CPred Model.Store Model.DomOps Proofs.DomTree Proofs.DomOpsInv
   Proofs.DomL1NoPanic Proofs.DomL1Atomic Proofs.DomL1Abs Proofs.DomL1Refine Proofs.DomL1RefineInsert Proofs.DomL1RefineAttr Proofs.DomPrintable Proofs.DomExample Proofs.DomC12
   Proofs.DomCheck Proofs.DomL1RefineValue Proofs.DomL1Frame Proofs.DomL1RefineSetAttr Proofs.DomL1RefineInv Proofs.DomL1RefineSplit
-  Proofs.DomL1RefineDoc Proofs.DomL1RefineNames Proofs.DomL1RefineAll.
+  Proofs.DomL1RefineDoc Proofs.DomL1RefineNames Proofs.DomL1RefineAll Proofs.DomL1RefineInvCheck.
 From XmlRs Require Spec.DomCharData Spec.DomL1.
 Import ListNotations.
 Open Scope N_scope.
@@ -257,6 +257,15 @@ Proof. intros init ops. apply run_inv2. Qed.
 Theorem C13_inv2_parts : forall w, WInv2 w <-> WInv w /\ WUniq w /\ WEnts w.
 Proof. intros w. split; [apply winv2_split | intros [H1 [H2 H3]]; apply winv2_join; assumption]. Qed.
 
+(** the hypothesis [WInv2 init] is decidable on the finite tables the model driver builds from the
+    implementation's dump of the parsed documents *)
+Theorem C13_inv2_checkable : forall l nx decl root,
+  StoreCheck.tree_inv_b l nx root = true -> uniq_b l = true -> ents_b l = true -> Inv2 (StoreCheck.store_of_list l nx decl root).
+Proof. exact inv2_checkable. Qed.
+
+Example C13_inv2_example : WInv2 ex_world.
+Proof. constructor; [|constructor]. apply inv2_checkable; vm_compute; reflexivity. Qed.
+
 (** the rungs along histories *)
 Theorem C13_data_refines_reachable : forall init ops o ao,
   WInv init -> is_data_op o = true -> abs_op o = Some ao -> refines_on (run init ops) o ao.
@@ -378,6 +387,47 @@ Proof.
   repeat split; vm_compute; reflexivity.
 Qed.
 
+(** the exclusions and the form of the set_attribute statement are not vacuous: on the same document,
+    after e = create_element("e"), replace_child(document, e, r) is refused by the model
+    (HIERARCHY_REQUEST_ERR) and done by the specification (class C13-DOC-MOVE, [KnownDocSwap]); and
+    set_attribute(a, "x", "2&lt;") on the attribute that is present ends in a state that is NOT the
+    specification's state computed from [abs ex_world] itself (one table entry more: the node
+    built first), while the outcomes agree *)
+Definition ex_world_e : world := fst (step ex_world (CreateElement (0, 1) no_name)).
+
+Example C13_doc_swap_refuted :
+  WInv ex_world_e /\ KnownDocSwap ex_world_e (0, 1) (0, 8) (0, 2) = true
+  /\ snd (step ex_world_e (ReplaceChild (0, 1) (0, 8) (0, 2))) = Failed HierarchyRequestErr
+  /\ snd (DomL1.dom_step (abs ex_world_e) (DomL1.AReplaceChild (0, 1) (0, 8) (0, 2))) = DomL1.ADone (DomL1.ANode (0, 2))
+  /\ ~ DomL1.conforms (abs ex_world_e) (DomL1.AReplaceChild (0, 1) (0, 8) (0, 2))
+                      (abs (fst (step ex_world_e (ReplaceChild (0, 1) (0, 8) (0, 2)))))
+                      (outcome_class (snd (step ex_world_e (ReplaceChild (0, 1) (0, 8) (0, 2))))).
+Proof.
+  split; [apply step_inv; exact ex_world_inv|]. split; [vm_compute; reflexivity|].
+  split; [vm_compute; reflexivity|]. split; [vm_compute; reflexivity|].
+  unfold DomL1.conforms.
+  assert (E : snd (DomL1.dom_step (abs ex_world_e) (DomL1.AReplaceChild (0, 1) (0, 8) (0, 2))) = DomL1.ADone (DomL1.ANode (0, 2)))
+    by (vm_compute; reflexivity).
+  rewrite E. intros [_ H].
+  assert (E2 : outcome_class (snd (step ex_world_e (ReplaceChild (0, 1) (0, 8) (0, 2)))) = DomL1.ARaised (DomL1.Dom DomCharData.HierarchyRequestErr))
+    by (vm_compute; reflexivity).
+  rewrite E2 in H. discriminate.
+Qed.
+
+Example C13_set_attribute_strict_refuted :
+  KnownSetAttrGarbage ex_world (0, 3) (nm [120]) val_2lt = true
+  /\ outcome_class (snd (step ex_world (SetAttribute (0, 3) (nm [120]) val_2lt)))
+     = snd (DomL1.dom_step (abs ex_world) (DomL1.ASetAttribute (0, 3) [120] (d_str val_2lt)))
+  /\ abs (fst (step ex_world (SetAttribute (0, 3) (nm [120]) val_2lt)))
+     <> fst (DomL1.dom_step (abs ex_world) (DomL1.ASetAttribute (0, 3) [120] (d_str val_2lt))).
+Proof.
+  split; [vm_compute; reflexivity|]. split; [vm_compute; reflexivity|].
+  intros H.
+  assert (L : forall a b : DomL1.adom, a = b -> map (fun d => length (DomL1.d_nodes d)) a = map (fun d => length (DomL1.d_nodes d)) b)
+    by (intros a b ->; reflexivity).
+  apply L in H. vm_compute in H. discriminate.
+Qed.
+
 Print Assumptions C13_step_refines_partial_append.
 Print Assumptions C13_step_refines_partial_insert.
 Print Assumptions C13_step_refines_partial_replace.
@@ -412,3 +462,4 @@ Print Assumptions C13_step_refines_partial_set_node_value.
 Print Assumptions C13_step_refines.
 Print Assumptions C13_step_refines_reachable.
 Print Assumptions C13_step_refines_reachable_fact_free.
+Print Assumptions C13_inv2_checkable.
